@@ -13,6 +13,7 @@ import (
 	"path/filepath"
 	"regexp"
 	"sort"
+	"strconv"
 	"strings"
 	"time"
 
@@ -60,19 +61,19 @@ func (prop) Plan(tier string, seed int64) []core.Batch {
 // ---- operations ----
 
 type Op struct {
-	Kind   string   `json:"kind"`
-	Path   []string `json:"path,omitempty"`
-	Name   string   `json:"name,omitempty"`
-	Title  string   `json:"title,omitempty"`
-	Body   string   `json:"body,omitempty"`
-	Parent uint32   `json:"parent,omitempty"`
-	ID     uint32   `json:"id,omitempty"`
-	Login  string   `json:"login,omitempty"`
-	NewLogin string `json:"new_login,omitempty"`
-	Access string   `json:"access,omitempty"`
-	PW     string   `json:"pw,omitempty"`
-	IP     string   `json:"ip,omitempty"`
-	Until  string   `json:"until,omitempty"`
+	Kind     string   `json:"kind"`
+	Path     []string `json:"path,omitempty"`
+	Name     string   `json:"name,omitempty"`
+	Title    string   `json:"title,omitempty"`
+	Body     string   `json:"body,omitempty"`
+	Parent   uint32   `json:"parent,omitempty"`
+	ID       uint32   `json:"id,omitempty"`
+	Login    string   `json:"login,omitempty"`
+	NewLogin string   `json:"new_login,omitempty"`
+	Access   string   `json:"access,omitempty"`
+	PW       string   `json:"pw,omitempty"`
+	IP       string   `json:"ip,omitempty"`
+	Until    string   `json:"until,omitempty"`
 }
 
 type Seq struct {
@@ -82,11 +83,11 @@ type Seq struct {
 
 // canonical state as printed by the loader / computed by the model
 type State struct {
-	Error    string                       `json:"error,omitempty"`
-	Board    string                       `json:"board"`
-	News     map[string]NewsNode          `json:"news"`
-	Accounts map[string]AccountState      `json:"accounts"`
-	Bans     map[string]string            `json:"bans"`
+	Error    string                  `json:"error,omitempty"`
+	Board    string                  `json:"board"`
+	News     map[string]NewsNode     `json:"news"`
+	Accounts map[string]AccountState `json:"accounts"`
+	Bans     map[string]string       `json:"bans"`
 }
 
 type NewsNode struct {
@@ -157,6 +158,53 @@ func apply(s State, op Op) State {
 		n.Bans[op.IP] = op.Until
 	}
 	return n
+}
+
+// valid tells whether op can be applied to model state s (used when an update is abandoned after a crash and later
+// updates of the sequence may have depended on it).
+func valid(s State, op Op) bool {
+	switch op.Kind {
+	case "news-bundle", "news-category":
+		if len(op.Path) > 0 {
+			if nd, ok := s.News[key(op.Path)]; !ok || nd.Type != 2 {
+				return false
+			}
+		}
+		_, exists := s.News[key(append(append([]string{}, op.Path...), op.Name))]
+		return !exists
+	case "news-post":
+		nd, ok := s.News[key(op.Path)]
+		if !ok || nd.Type != 3 {
+			return false
+		}
+		if op.Parent != 0 {
+			_, ok = nd.Articles[op.Parent]
+		}
+		return ok
+	case "news-delete-article":
+		nd, ok := s.News[key(op.Path)]
+		if !ok {
+			return false
+		}
+		_, ok = nd.Articles[op.ID]
+		return ok
+	case "news-delete-item":
+		_, ok := s.News[key(op.Path)]
+		return ok
+	case "account-create":
+		_, ok := s.Accounts[op.Login]
+		return !ok
+	case "account-update":
+		if _, ok := s.Accounts[op.Login]; !ok {
+			return false
+		}
+		_, taken := s.Accounts[op.NewLogin]
+		return op.NewLogin == op.Login || !taken
+	case "account-delete":
+		_, ok := s.Accounts[op.Login]
+		return ok
+	}
+	return true
 }
 
 func genSeq(r *core.Rand) (Seq, State) {
@@ -325,7 +373,16 @@ func ChildRun(dir, seqFile string) int {
 		fmt.Println("ERR", err)
 		return 3
 	}
+	only := map[int]bool{}
+	for _, f := range strings.Split(os.Getenv("VERIF_C20_ONLY"), ",") {
+		if n, err := strconv.Atoi(f); err == nil {
+			only[n] = true
+		}
+	}
 	for i, op := range seq.Ops {
+		if os.Getenv("VERIF_C20_ONLY") != "" && !only[i] {
+			continue
+		}
 		os.Stdout.WriteString(fmt.Sprintf("BEGIN %d\n", i))
 		var err error
 		switch op.Kind {
@@ -559,6 +616,14 @@ func loadState(dir, seqFile string) (State, error) {
 	return st, nil
 }
 
+func lastLines(s string) string {
+	ls := strings.Split(strings.TrimSpace(s), "\n")
+	if len(ls) > 2 {
+		ls = ls[len(ls)-2:]
+	}
+	return strings.Join(ls, " / ")
+}
+
 func callName(line string) string {
 	m := callRe.FindStringSubmatch(line)
 	if m == nil {
@@ -697,13 +762,80 @@ func crashPoint(scratch, base, seqFile string, seq Seq, states []State, refTrace
 			Msg: fmt.Sprintf("killed on entry to call %d (%s) with %d updates acknowledged and %q in flight: after restart a store does not load: %s", j, clip(refTrace[j]), acks, inflight, st.Error)}
 	}
 	d1 := equalState(st, states[acks])
+	applied := -1
 	if d1 == "" {
-		return core.Result{Case: id, Class: class, Verdict: core.Held, Obs: obs, Sample: sample}
-	}
-	if begins > acks {
+		applied = acks
+	} else if begins > acks {
 		if d2 := equalState(st, states[acks+1]); d2 == "" {
-			return core.Result{Case: id, Class: class, Verdict: core.Held, Obs: obs, Sample: sample}
+			applied = acks + 1
 		}
+	}
+	if applied >= 0 {
+		// the restarted server carries on: the remaining updates are applied to the directory the crash left behind
+		// (stale temporary files and all) by a fresh process, and after one more restart the stores must hold exactly
+		// the final state - an acknowledged update must not be lost or mangled by the leftovers of the crash.
+		// Two continuations: the client repeats the update that was in flight ("retry"), or gives up on it and the
+		// remaining updates that still make sense are applied ("abandon").
+		type cont struct {
+			name string
+			idx  []int
+			want State
+		}
+		var conts []cont
+		retry := cont{name: "retry", want: states[len(states)-1]}
+		for i := applied; i < len(seq.Ops); i++ {
+			retry.idx = append(retry.idx, i)
+		}
+		conts = append(conts, retry)
+		if applied == acks && begins > acks {
+			ab := cont{name: "abandon", want: states[acks]}
+			for i := acks + 1; i < len(seq.Ops); i++ {
+				if valid(ab.want, seq.Ops[i]) {
+					ab.idx = append(ab.idx, i)
+					ab.want = apply(ab.want, seq.Ops[i])
+				}
+			}
+			conts = append(conts, ab)
+		}
+		for ci, ct := range conts {
+			if len(ct.idx) == 0 {
+				continue
+			}
+			cdir := dir
+			if ci+1 < len(conts) {
+				cdir = dir + "-c"
+				if err := copyDir(dir, cdir); err != nil {
+					return core.Result{Case: id, Verdict: core.Inconclusive, Msg: err.Error()}
+				}
+				defer os.RemoveAll(cdir)
+			}
+			var ids []string
+			for _, i := range ct.idx {
+				ids = append(ids, strconv.Itoa(i))
+			}
+			cmd := exec.Command(self(), "crashchild", "run", cdir, seqFile)
+			cmd.Env = append(os.Environ(), "VERIF_C20_ONLY="+strings.Join(ids, ","))
+			out2, _ := cmd.Output()
+			obs["continued_after_restart_"+ct.name] = 1
+			what := fmt.Sprintf("killed on entry to call %d (%s) with %q in flight; the stores reloaded with %d updates in effect; continuation %q (updates %s)", j, clip(refTrace[j]), inflight, applied, ct.name, strings.Join(ids, ","))
+			if !strings.Contains(string(out2), fmt.Sprintf("ACK %d\n", ct.idx[len(ct.idx)-1])) {
+				return core.Result{Case: id, Class: class, Verdict: core.Violated, Key: "C20/" + inflight + "/update-fails-after-restart", Obs: obs, Sample: sample,
+					Msg: what + " failed on that directory: " + clip(lastLines(string(out2)))}
+			}
+			st2, err := loadState(cdir, seqFile)
+			if err != nil {
+				return core.Result{Case: id, Verdict: core.Inconclusive, Msg: err.Error()}
+			}
+			if st2.Error != "" {
+				return core.Result{Case: id, Class: class, Verdict: core.Violated, Key: "C20/" + inflight + "/store-does-not-load-after-continuing", Obs: obs, Sample: sample,
+					Msg: what + " was acknowledged, but after the next restart a store does not load: " + st2.Error}
+			}
+			if d := equalState(st2, ct.want); d != "" {
+				return core.Result{Case: id, Class: class, Verdict: core.Violated, Key: "C20/" + inflight + "/lost-after-continuing", Obs: obs, Sample: sample,
+					Msg: what + " was acknowledged, but after the next restart the stores do not hold the expected state: " + d}
+			}
+		}
+		return core.Result{Case: id, Class: class, Verdict: core.Held, Obs: obs, Sample: sample}
 	}
 	return core.Result{Case: id, Class: class, Verdict: core.Violated, Key: "C20/" + inflight + "/torn-or-lost", Obs: obs, Sample: sample,
 		Msg: fmt.Sprintf("killed on entry to call %d (%s) with %d updates acknowledged and %q in flight: the reloaded state is neither the state after %d updates nor (if begun) after %d: %s", j, clip(refTrace[j]), acks, inflight, acks, acks+1, d1)}
